@@ -1568,13 +1568,13 @@ def effective(opts_snapshot, base=None, legacy=False):
 
 def options_history_check(content, holder, ops):
     """content: the options the application asks for; holder: dict | frozendict | proxy (the ONE object handed around);
-    ops: OPT_OPS names.  Returns (what, details) for the first failure, else None."""
+    ops: OPT_OPS names.  Returns the list of (what, details) failures."""
     import types
     from yaql import legacy
     live = dict(content)                      # the application's own dict
     obj = live if holder == "dict" else (utils.FrozenDict(live) if holder == "frozendict" else types.MappingProxyType(live))
     base_opts = {S2L: True}
-    base = _factory.create(options=dict(base_opts))
+    base = engine(None, True)                 # cached; its options are exactly base_opts
     made = []                                 # (engine or statement, expected (t2l, s2l), description)
     info = {"kind": "options_history", "content": content, "holder": holder, "ops": list(ops),
             "options": {"convertTuplesToLists": bool(content.get(T2L, True)), "convertSetsToLists": bool(content.get(S2L, False))}}
@@ -1593,8 +1593,10 @@ def options_history_check(content, holder, ops):
                                  observed=repr(canon_obs(obs))[:500], required=repr(want)[:500], offending_nodes=bad[:6]))
         return None
 
+    asked = dict(content)                     # what the application asked for: a copy the library never sees
+    found = []
     for n, op in enumerate(ops):
-        snap = dict(obj)
+        snap = dict(asked)
         try:
             if op == "legacy_create":
                 e = legacy.YaqlFactory().create(obj)
@@ -1612,38 +1614,37 @@ def options_history_check(content, holder, ops):
                 stmts = {x: base(x, obj) for x in ("$", "[1, [2, [3]], $.s]")}     # parsed NOW, with the options as they are now
                 made.append((base, stmts.__getitem__, effective(snap, base_opts), "engine(expr, options) #%d" % n))
             elif op == "caller_mutates":          # the application changes ITS dict afterwards: engines keep what they were given
-                live[T2L] = not live.get(T2L, True)      # (a FrozenDict holder is a copy and does not follow)
+                live[T2L] = not live.get(T2L, True)
                 live[S2L] = not live.get(S2L, False)
-                snap = dict(obj)
+                if holder != "frozendict":        # (a FrozenDict holder is a copy and does not follow)
+                    asked[T2L], asked[S2L] = live[T2L], live[S2L]
         except Exception as ex:
-            return ("handing an options mapping to %s raised %s" % (op, type(ex).__name__),
-                    dict(info, failing_op=n, trace=traceback.format_exc()[-1200:]))
-        if dict(obj) != snap or list(obj) != list(snap):
-            return ("the caller's options mapping was modified by the library",
-                    dict(info, failing_op=n, op=op, before=snap, after=dict(obj),
-                         required="factories, create(), copy() and engine(expr, options) take a private copy of the options"))
+            found.append(("handing an options mapping to %s raised %s" % (op, type(ex).__name__),
+                          dict(info, failing_op=n, trace=traceback.format_exc()[-1200:])))
+            break
+        if dict(obj) != asked and not any(f[0].startswith("the caller") for f in found):
+            found.append(("the caller's options mapping was modified by the library",
+                          dict(info, failing_op=n, op=op, asked=dict(asked), now=dict(obj),
+                               required="factories, create(), copy() and engine(expr, options) take a private copy of the options")))
         bad = judge_all("after op %d (%s)" % (n, op))
         if bad:
-            return bad
-    return None
+            found.append(bad)
+            break
+    return found
 
 
 def oracle_options_objects(run, deep):
     rng = run.rng
     todo = []
-    for t2l in (None, True, False):
-        for s2l in (None, True, False):
-            c = {}
-            if t2l is not None:
-                c[T2L] = t2l
-            if s2l is not None:
-                c[S2L] = s2l
-            for ops in (["legacy_create", "create"], ["create", "legacy_create", "create_kw"], ["legacy_create", "copy", "expr_options"],
-                        ["create", "caller_mutates", "create", "legacy_create", "expr_options"]):
-                todo.append((c, "dict", ops))
-            todo.append((c, "frozendict", ["legacy_create", "create", "copy"]))
-            todo.append((c, "proxy", ["create", "legacy_create", "expr_options", "caller_mutates", "copy"]))
-    for _ in range(run.n(40, 800) * (3 if deep else 1)):
+    contents = [{}, {T2L: True}, {T2L: True, S2L: True}, {T2L: False, S2L: False}, {S2L: True}]
+    for c in contents[:4] if not deep and run.quick else contents:
+        todo.append((c, "dict", ["legacy_create", "create"]))
+    todo += [({T2L: True}, "dict", ["create", "legacy_create", "create_kw"]),
+             ({}, "dict", ["legacy_create", "copy", "expr_options"]),
+             ({T2L: True, S2L: True}, "dict", ["create", "caller_mutates", "create", "legacy_create", "expr_options"]),
+             ({T2L: True}, "frozendict", ["legacy_create", "create", "copy"]),
+             ({}, "proxy", ["create", "legacy_create", "expr_options", "caller_mutates", "copy"])]
+    for _ in range(run.n(6, 300) * (3 if deep else 1)):
         c = {}
         if rng.random() < 0.7:
             c[T2L] = rng.random() < 0.5
@@ -1654,12 +1655,13 @@ def oracle_options_objects(run, deep):
         todo.append((c, rng.choice(["dict", "dict", "frozendict", "proxy"]), [rng.choice(OPT_OPS) for _ in range(rng.randrange(2, 6))]))
     seen = set()
     for c, holder, ops in todo:
-        bad = options_history_check(c, holder, ops)
+        found = options_history_check(c, holder, ops)
         run.cov["evaluations"] += 2 * len(ops)
-        run.count("O:options-history-" + ("ok" if bad is None else "FAIL"))
-        if bad and bad[0] not in seen:
-            seen.add(bad[0])
-            run.fail("violation", bad[0], bad[1])
+        run.count("O:options-history-" + ("ok" if not found else "FAIL"))
+        for bad in found:
+            if bad[0] not in seen:
+                seen.add(bad[0])
+                run.fail("violation", bad[0], bad[1])
 
 
 # --------------------------------------------------------------------------
@@ -1687,7 +1689,7 @@ IFACE_PROBES = [
     ("select", "m", _L3, [lambda i: (i, (i, {i}))], "$1.select([$, [$, set($)]])"),
     ("select", "m", _L3, [lambda i: {"v": (i,)}], "$1.select({v => [$]})"),
     ("orderBy", "m", _L3, [lambda i: i], "$1.orderBy($)"),
-    ("toDict", "m", _L3, [lambda t: t, lambda t: (t, [t])], "$1.toDict($, [$, [$]])"),
+    ("toDict", "m", _L3, [lambda t: t, lambda t: (t, (t,))], "$1.toDict($, [$, [$]])"),
     ("groupBy", "m", _L3, [lambda t: t > 1], "$1.groupBy($ > 1)"),
     ("list", "f", None, [_L1, 5], "list($2, $3)"), ("list", "f", None, [_L2], "list($2)"),
     ("set", "f", None, [1, "a", (2, 3)], "set($2, $3, $4)"), ("dict", "f", None, [[["a", [1, (2,)]], ["b", {1}]]], "dict($2)"),
@@ -2048,7 +2050,7 @@ def replay(run, data):
             return False
         return not run.coq_mismatches(LHEADER, "lcase", "lcase_ok", [lcase_term(t2l, s2l, d["limit"], tin, obs)])
     if d.get("kind") == "options_history":
-        return options_history_check(d["content"], d["holder"], d["ops"]) is None
+        return not options_history_check(d["content"], d["holder"], d["ops"])
     if d.get("kind") == "iface_route":
         return not [f for f in iface_findings() if f[1]["probe"] == d["probe"] and f[1]["route"] == d["route"]
                     and f[1]["options"] == d["options"]]
